@@ -24,7 +24,10 @@ RULE = ("each evaluation is one text: a generated well-formed chart damaged by a
         "truncation) or a text assembled from a fragment catalogue, kept inside the property's "
         "bounds (digit runs <= 8, TS exponent < 64). Distinct = distinct text digest; non-trivial "
         "= the text differs from its well-formed base (at least one fault fired) or is an "
-        "assembled text with >= 3 lines")
+        "assembled text with >= 3 lines. Every eighth run is a 420-text history in one process; "
+        "every eighth run is a concurrent-renderer run (each evaluation there is one str()/repr() "
+        "of a cold chart or one of its parts while other readers use the chart; non-trivial = at "
+        "least one context switch in the middle of an operation)")
 ASSUMPTIONS = [
     "texts are sampled, not enumerated; a clean batch is evidence, not proof",
     "the closed set of documented errors is ValueError (incl. subclasses), RegexNotMatchError, "
